@@ -112,10 +112,20 @@ def run(config, tier, seed):
     m0 = b0.formulate()
     b1 = ampform.get_builder(reaction)
     # ---- reference state of the selector + the library calls
-    state: dict = {}
-    for t in reaction.transitions:
-        for n in t.topology.nodes:
-            state[node_key(t, n)] = "none"
+    rules: list = []  # ordered assignments: ("name", particle name, builder) | ("decay", node key, builder)
+
+    class _State:
+        def __getitem__(self, key):
+            parent_name = key[0][1]
+            for kind_, target_, b_ in reversed(rules):
+                if (kind_ == "name" and target_ == parent_name) or (kind_ == "decay" and target_ == key):
+                    return b_
+            return "none"
+
+        def __setitem__(self, key, value):
+            rules.append(("decay", key, value))
+
+    state = _State()
     initial = {t.states[i].particle.name for t in reaction.transitions for i in t.topology.incoming_edge_ids}
     resonances = sorted({t.states[node_decay(t.topology, n)[0]].particle.name for t in reaction.transitions for n in t.topology.nodes} - initial)
     script = config["script"]
@@ -123,19 +133,13 @@ def run(config, tier, seed):
         if kind == "name":
             name = resonances[target % len(resonances)]
             b1.dynamics.assign(name, B[bkey])
-            for t in reaction.transitions:
-                for n in t.topology.nodes:
-                    if t.states[node_decay(t.topology, n)[0]].particle.name == name:
-                        state[node_key(t, n)] = bkey
+            rules.append(("name", name, bkey))
         elif kind == "particle":
             name = resonances[target % len(resonances)]
             part = next(t.states[node_decay(t.topology, n)[0]].particle for t in reaction.transitions for n in t.topology.nodes
                         if t.states[node_decay(t.topology, n)[0]].particle.name == name)  # fmt: skip
             b1.dynamics.assign(part, B[bkey])
-            for t in reaction.transitions:
-                for n in t.topology.nodes:
-                    if t.states[node_decay(t.topology, n)[0]].particle.name == name:
-                        state[node_key(t, n)] = bkey
+            rules.append(("name", name, bkey))
         else:  # one specific decay
             res_idx, which = target  # the which-th decay node whose parent is resonance number res_idx
             name = resonances[res_idx % len(resonances)]
@@ -244,7 +248,7 @@ def configs(tier):
     out = []
     reactions = ["J/psi->gamma f0,f2", "J/psi->pi0 pi+ pi- (rho)", "J/psi->K0 Sigma+ p~"]
     if tier == "thorough":
-        reactions += ["J/psi->pi0 omega(->gamma pi0)", "J/psi->omega pi+ pi- (b1)", "D0->K0 K+ K- (a0,phi)"]
+        reactions += ["J/psi->omega pi+ pi- (b1)", "D0->K0 K+ K- (a0,phi)"]
     # an S-wave node with a spin-1 parent (L = 0 must reach the builder), and one resonance in several topologies
     out.append({"name": "J/psi->omega pi+ pi- (b1)|canonical-helicity|name:uf", "reaction": "J/psi->omega pi+ pi- (b1)", "formalism": "canonical-helicity", "script": scripts["name:uf"]})
     out.append({"name": "eta_c->pi0 eta eta' (a0,a2)|canonical-helicity|name:uf", "reaction": "eta_c->pi0 eta eta' (a0,a2)", "formalism": "canonical-helicity", "script": scripts["name:uf"]})
@@ -274,7 +278,7 @@ def main():
             "d1 is the helicity child (smaller attached final-state tuple); L = interaction.l_magnitude, else the parent spin if integer",
             "S-wave / equal-mass phase-space factors opaque (one unknown per structurally distinct node)",
         ],
-        outside=["longer assignment histories", "builders with side effects"],
+        outside=["longer assignment histories", "builders with side effects", "reactions with identical final-state particles attached to different nodes (omega -> gamma pi0 next to a pi0): not decided within the time limit"],
     )
 
 
